@@ -69,6 +69,8 @@ fn nontrivial(case: &EvalCase, model: &me::MRes) -> bool {
     matches!(model, Err(MErr::AnyError)) || has_extreme_literal(&case.expr) || facts_extreme(&case.facts)
 }
 
+static VIA_TEXT: std::sync::atomic::AtomicU64 = std::sync::atomic::AtomicU64::new(0);
+
 pub fn run(ctx: &Ctx) {
     ctx.set_rule(
         "Generated: (1) every node kind x every operand tuple from the boundary pool (exhaustive depth-1 cells, \
@@ -165,6 +167,15 @@ pub fn run(ctx: &Ctx) {
                 let a2 = observe_via_ruleset(&case);
                 judge(&case, &a2, &o.model).map_err(|i| Issue::new(format!("{}:via-ruleset", i.sig), i.msg))?;
             }
+            // a sample also through text (parse of the harness's rendering), when in the parser's image
+            if bytes.first().copied().unwrap_or(1) % 8 == 0 {
+                if let Some(parsed) = through_text(&case.expr, bytes) {
+                    VIA_TEXT.fetch_add(1, std::sync::atomic::Ordering::Relaxed);
+                    let c2 = EvalCase { expr: parsed, ..case.clone() };
+                    let o2 = observe(&c2);
+                    judge(&c2, &o2.actual, &o2.model).map_err(|i| Issue::new(format!("{}:via-text", i.sig), i.msg))?;
+                }
+            }
             Ok(())
         },
         |bytes| random_case(bytes, 6).to_json(),
@@ -175,6 +186,7 @@ pub fn run(ctx: &Ctx) {
             (c.to_json(), i)
         }),
     );
+    ctx.extra("random_cases_also_evaluated_through_text", serde_json::json!(VIA_TEXT.load(std::sync::atomic::Ordering::Relaxed)));
 }
 
 pub fn replay(j: &serde_json::Value) -> Option<Verdict> {
